@@ -6,6 +6,6 @@ import "free5gclib/aper"
 
 type AssociatedQosFlowItem struct {
 	QosFlowIdentifier        QosFlowIdentifier
-	QosFlowMappingIndication *aper.Enumerated                                       `aper:"optional"`
+	QosFlowMappingIndication *aper.Enumerated                                       `aper:"valueExt,valueLB:0,valueUB:1,optional"`
 	IEExtensions             *ProtocolExtensionContainerAssociatedQosFlowItemExtIEs `aper:"optional"`
 }
